@@ -79,6 +79,13 @@ func gen(seed int64, tier string, idx int) *pipe.Scenario {
 			d.Dst.Shape = map[int]string{1 + g.R.Intn(10): shape}
 			d.Dst.ShapeSess = 1
 			kind = "dst:" + shape
+			if (shape == "emptyacks" || shape == "drop") && g.R.Intn(2) == 0 {
+				// single-record writes: a response without acks is then the ONLY
+				// response the engine has read for that write
+				for i := range sc.Topo.Sources {
+					sc.Topo.Sources[i].Src.Batches = []int{1}
+				}
+			}
 		}
 	case 3: // errors / panics from unary plugin calls
 		call := calls[g.R.Intn(len(calls))]
